@@ -102,6 +102,7 @@ func cmdWorker(args []string) int {
 	fs.StringVar(&a.Scratch, "scratch", "", "")
 	fs.StringVar(&skipfile, "skipfile", "", "")
 	fs.StringVar(&a.Resume, "resume", "", "")
+	fs.StringVar(&a.Only, "only", "", "")
 	_ = fs.Parse(args)
 	a.Seed = seed
 	a.Skip = map[string]bool{}
